@@ -707,6 +707,39 @@ func (g *overlayGen) paramsFromNode(fi *funcInfo, node ast.Node, withResults boo
 		if types.Universe.Lookup(name) != nil {
 			continue
 		}
+		if strings.HasPrefix(name, "argof_") && fi.decl != nil {
+			parts := strings.SplitN(strings.TrimPrefix(name, "argof_"), "_", 3)
+			if len(parts) != 3 {
+				return nil, "", fmt.Errorf("bad arg_of")
+			}
+			k, _ := strconv.Atoi(parts[0])
+			ai, _ := strconv.Atoi(parts[1])
+			calls := collectCalls(fi.decl, parts[2])
+			if k < 1 || k > len(calls) {
+				return nil, "", fmt.Errorf("arg_of: %d calls of %s, clause names call %d", len(calls), parts[2], k)
+			}
+			ce := calls[k-1]
+			var ex ast.Expr
+			if ai == 0 {
+				se, ok := ce.Fun.(*ast.SelectorExpr)
+				if !ok {
+					return nil, "", fmt.Errorf("arg_of: call %d of %s has no receiver", k, parts[2])
+				}
+				ex = se.X
+			} else if ai-1 < len(ce.Args) {
+				ex = ce.Args[ai-1]
+			} else {
+				return nil, "", fmt.Errorf("arg_of: call %d of %s has %d arguments", k, parts[2], len(ce.Args))
+			}
+			tv, ok := g.p.TypesInfo.Types[ex]
+			if !ok || tv.Type == nil {
+				return nil, "", fmt.Errorf("arg_of: no type for argument %d of call %d of %s", ai, k, parts[2])
+			}
+			lp := g.fset.Position(ce.Lparen)
+			params = append(params, ClauseParam{Kind: pkCallArg, Name: name, File: lp.Filename, Off: lp.Offset, Index: ai})
+			decl = append(decl, name+" "+types.TypeString(tv.Type, g.qual))
+			continue
+		}
 		if strings.HasPrefix(name, "resultof_") && fi.decl != nil {
 			parts := strings.SplitN(strings.TrimPrefix(name, "resultof_"), "_", 2)
 			k, _ := strconv.Atoi(parts[0])
